@@ -402,10 +402,12 @@ template<class T> constexpr T spice(T*t) {return *t;}
 
 #define rBOIL_END }
 
+//The bound is compared in the promoted type of var (int for char and short,
+//float for float), so that a bound which var's type cannot hold is not wrapped
 #define rLIMIT(var, convert) \
-    if(prop["min"] && var < (decltype(var)) convert(prop["min"])) \
+    if(prop["min"] && var < (decltype(var+0)) convert(prop["min"])) \
         var = (decltype(var)) convert(prop["min"]);\
-    if(prop["max"] && var > (decltype(var)) convert(prop["max"])) \
+    if(prop["max"] && var > (decltype(var+0)) convert(prop["max"])) \
         var = (decltype(var)) convert(prop["max"]);
 
 #define rTYPE(n) decltype(obj->n)
